@@ -153,7 +153,7 @@ claim("C02",
 
 claim("C12",
   category="translation_validation",
-  technique="static schema-to-package validation (the XML schemas read as data vs. the shipped package as typed syntax, declaration by declaration) plus generator lints over go/ssa and the parsed text templates (template-field existence, accessor index agreement, index lock-step, map-order taint table, duplicate rejection, type-table agreement); interprocedural backward slice of the output path (directory untransformed), package-level-state and single-derivation lints; version-string rendering rule (Sprintf verbs matched to arguments); formatting failure is fatal on every path; evaluation of the constant package-name pattern",
+  technique="static schema-to-package validation (the XML schemas read as data vs. the shipped package as typed syntax, declaration by declaration) plus generator lints over go/ssa and the parsed text templates (template-field existence, accessor index agreement, index lock-step, map-order taint table, duplicate rejection, type-table agreement); interprocedural backward slice of the output path (directory untransformed), package-level-state and single-derivation lints; version-string rendering rule (Sprintf verbs matched to arguments); formatting failure is fatal on every path; evaluation of the constant package-name pattern; key-normalisation agreement between writers and readers of the generator's tables",
   text="The shipped reference package is validated against an oracle derived from the XML alone: constants, member order and value types of every message/component/header/trailer/group, accessor positions and Go types, populating constructors, pipeline wrappers, and the converse (no constant without a schema origin). "
        "For every schema, necessary conditions on the generator source are decided: template fields exist, getter and setter share index/name/type, the accessor index tracks the constructor position on every path, required ⇔ constructor argument + setter call, groups of any depth are collected, no map order reaches the output, "
        "the package name is the output directory's base name, duplicates are rejected before any write, the type table agrees with package fix. One recorded finding (one type per group name: NoMDEntries). NOT decided: that an arbitrary accepted schema yields a compiling package, and that the shipped package is what the generator emits — both need running the generator.",
